@@ -4,8 +4,10 @@ mod alloc;
 mod chain;
 mod codec;
 mod common;
+mod hs;
 mod merkle;
 mod node;
+mod sync;
 
 #[global_allocator]
 static GLOBAL: alloc::Counting = alloc::Counting;
@@ -27,6 +29,10 @@ fn main() {
         "codec" => codec::run(seed, tier, out),
         "chain" => chain::run(seed, tier, out),
         "merkle" => merkle::run(seed, tier, out),
+        "hs" => hs::run(seed, tier, out),
+        "sync" => sync::run(seed, tier, out),
+        // replay of a handshake script (.ops file or a replay JSON of ./check): harness hs-script <seed> <file> <outdir>
+        "hs-script" => hs::run_script(seed, tier, out),
         "merkle-one" => merkle::one(&args[2], &args[3]),
         "chain-worker" => chain::worker(seed, tier, args[4].parse().unwrap_or(0)),
         "chain-flags" => println!("{}", chain::calibrate()),
